@@ -40,7 +40,7 @@
 (*     (checked: CHECK_DEADLOCK TRUE, only `Done` stutters).  The contract *)
 (*     expectation of the world rides along in xb, so the `contract-*`     *)
 (*     clauses are checked on every step of every order, too.              *)
-(*  3. CONTRACT (operators CInfos .. Expectation and the invariants at the *)
+(*  3. CONTRACT (operators MockInfo, Contract and the invariants at the    *)
 (*     bottom), composed from the family modules                           *)
 (*       ConfigTreeContract  which mocks, effective values   (C07 / C08)   *)
 (*       TemplateResolve     fixpoint of templated values    (C11)         *)
@@ -57,7 +57,16 @@
 (* says -- packages a (apk; A1, A2), a/b (bpk; B1) below it, k (kpk; K1,   *)
 (* K2) -- a configuration tree of one of three SHAPES, a layout (where the *)
 (* config file is and how it is found), the command line, pre-existing     *)
-(* output files, at most one fault.                                        *)
+(* output files, at most one fault, optionally a build-tagged declaration. *)
+(*                                                                         *)
+(* Behaviour no listed property names, as actions / invariants of the same *)
+(* machine: `showconfig` (ShowConfig; ShowconfigShowsWhatRunUses), log     *)
+(* level from --log-level / MOCKERY_LOG_LEVEL / the file (RunStart;        *)
+(* SourcesLayered; no other influence), `version`, `--help`, unknown flag  *)
+(* or sub-command (Start; OtherCommandsTouchNothing), build-tags /         *)
+(* MOCKERY_BUILD_TAGS (Visible, NextPkg), the double Initialize            *)
+(* (PassesAgree).  mockery v3 has no version-check network call (the only  *)
+(* http.Get downloads http(s):// templates), so there is nothing to model. *)
 (***************************************************************************)
 EXTENDS MockerySkeleton, Json
 
